@@ -26,6 +26,7 @@ package encryption
 //@     assume_result [cipher-or-error] result1 == nil ==> result0 != nil
 //@   ensures [short-rejected] len(b) < 14 ==> err != nil
 //@   ensures [version-rejected] len(b) >= 14 && old(b[0]) != 1 ==> err != nil
+//@   ensures [record-untouched] forall i int :: 0 <= i && i < len(b) ==> b[i] == old(b[i])
 //@
 //@ func (*Marshaler).MarshalResource
 //@   props C18
